@@ -218,6 +218,22 @@ def run_case(case, model):
         eight = any(b > 127 for b in body)
         tags.append('enc=' + case['encoder'])
         tags.append('8bit' if eight else 'ascii')
+        # a refusal does not wear off: a relay that refused the message once (no encoder) refuses it again on the next attempt, and
+        # so do its copy and its pickled twin; only then is the call under test made
+        if eight and case.get('refused_before', True):
+            for victim in ('same', 'copy', 'pickle'):
+                e0 = env if victim == 'same' else env.copy() if victim == 'copy' else pickle.loads(pickle.dumps(env, pickle.HIGHEST_PROTOCOL))
+                for _ in range(2):
+                    try:
+                        e0.encode_7bit(None)
+                        hits.append(hit('c20.7bit-passes-8bit.after-refusal', '8-bit body passed on without an encoder on a repeated attempt (%s envelope)' % victim,
+                                        observed=e0.flatten()[1][:60].hex(), expected='UnicodeError'))
+                        break
+                    except UnicodeError:
+                        pass
+                    except Exception as e:
+                        hits.append(hit('c20.7bit-encoder-raises', 'encode_7bit raised something else', observed=repr(e)))
+                        break
         try:
             env.encode_7bit(enc)
             raised = None
